@@ -419,3 +419,16 @@ Definition unit_of_ext (ext : string) : option bool :=
               | Some (cls, _) => assoc cls units_table
               end
   end.
+
+(* ------------------------------------------------------------------ unit attributes (format standards) *)
+(* the "units" attribute of the variables of the self-describing containers: MDTraj HDF5 (nanometers,
+   picoseconds, degrees), AMBER NetCDF trajectory and restart conventions (angstrom, picosecond, degree).
+   /repo's strings are regenerated into Gen/CodecTables.v:src_unit_attrs and obliged to coincide with these by
+   Props/C01.v:unit_attributes_standard (the run-time check reads the attributes of every written file with
+   PyTables / netCDF4 as well).  TRR and XTC carry no unit attributes: nanometres and picoseconds by the GROMACS
+   convention, DCD angstrom by the CHARMM/NAMD convention. *)
+Definition unit_attrs_std : list (string * list (string * string)) := [
+  ("h5", [("cell_angles", "degrees"); ("cell_lengths", "nanometers"); ("coordinates", "nanometers"); ("time", "picoseconds")]);
+  ("nc", [("cell_angles", "degree"); ("cell_lengths", "angstrom"); ("coordinates", "angstrom"); ("time", "picosecond")]);
+  ("ncrst", [("cell_angles", "degree"); ("cell_lengths", "angstrom"); ("coordinates", "angstrom"); ("time", "picosecond")])
+]%string.
